@@ -37,6 +37,8 @@ TCancel == /\ HasNext /\ Ev.ev = "cancel" /\ Eat /\ Same /\ Cancel
 TAdv == /\ HasNext /\ Ev.ev = "adv" /\ Eat /\ Same /\ AdvTo(Ev.now)
 TSignal == /\ HasNext /\ Ev.ev = "signal" /\ Eat /\ sigArr > 0 /\ sigArr' = sigArr - 1 /\ UNCHANGED <<atTop, tokArr, clArr>>
            /\ \E x \in sigS : Deliver(x)
+TRun2Call == /\ HasNext /\ Ev.ev = "run2_call" /\ Eat /\ Same /\ \E j \in R2s : Run2Call(j) /\ \A i \in R2s : i < j => r2pc[i] # "idle"   \* callers are interchangeable: the first idle one
+TRun2Ret == /\ HasNext /\ Ev.ev = "run2_ret" /\ Eat /\ Same /\ Ev.err /\ \E j \in R2s : Run2Ret(j)
 TRunRet == /\ HasNext /\ Ev.ev = "run_ret" /\ Eat /\ Same /\ RunRet
 (* observation points: the model is at rest too, with the consumer where the harness saw it *)
 TQuiescent == /\ HasNext /\ Ev.ev = "quiescent" /\ Eat /\ Same /\ UNCHANGED vars
@@ -65,13 +67,14 @@ TSilent == /\ HasNext /\ Keep
           /\ \/ Same /\ \/ \E g \in Gs : AddBody(g)
                         \/ (RunSelect /\ rpc' = "ret") \/ RunInput \/ RunTimer \/ RunExit
                         \/ \E k \in Ks : CloseWait(k)
+                        \/ \E j \in R2s : Run2Body(j)
                         \/ Take
              \/ atTop /\ atTop' = FALSE /\ RunTop /\ UNCHANGED <<tokArr, sigArr, clArr>>
              \/ tokArr > 0 /\ tokArr' = tokArr - 1 /\ TokExit /\ UNCHANGED <<atTop, sigArr, clArr>>
              \/ sigArr > 0 /\ sigArr' = sigArr - 1 /\ (\E x \in sigS : SigExit(x)) /\ UNCHANGED <<atTop, tokArr, clArr>>
              \/ clArr > 0 /\ clArr' = clArr - 1 /\ (\E k \in Ks : CloseCrit(k)) /\ UNCHANGED <<atTop, tokArr, sigArr>>
 
-TNext == TAddCall \/ TAddRet \/ TCloseCall \/ TCloseRet \/ TCancel \/ TAdv \/ TSignal \/ TRunRet \/ TQuiescent \/ TStuck
+TNext == TAddCall \/ TAddRet \/ TCloseCall \/ TCloseRet \/ TCancel \/ TAdv \/ TSignal \/ TRunRet \/ TRun2Call \/ TRun2Ret \/ TQuiescent \/ TStuck
          \/ TTop \/ TInput \/ TTimer \/ TAddSend \/ TFireSend \/ TCloseBefore \/ TIgnore \/ TSilent
 TSpec == TInit /\ [][TNext]_tvars
 Done == IF l = Trace[tr].end THEN PrintT(<<"DONE", tr>>) ELSE TRUE
